@@ -27,7 +27,9 @@ CONSTANTS
   \* @type: Int;
   MaxPeerMsgs,
   \* @type: Bool;
-  IgnoreAfterDone
+  IgnoreAfterDone,
+  \* @type: Bool;
+  OnceClose
 VARIABLES
   \* @type: Str;
   cli,      \* "start","written","sent","done_ok","done_err"
@@ -48,52 +50,65 @@ VARIABLES
   \* @type: Int;
   npeer,    \* answers produced so far
   \* @type: Bool;
-  appOK     \* an application answer sent after the handshake was dispatched
-vars == <<cli, i, errc, srv, meta, inq, ncer, closed, npeer, appOK>>
+  appOK,    \* an application answer sent after the handshake was dispatched
+  \* @type: Bool;
+  crashed   \* the dialling goroutine panicked (close of a closed channel): nothing recovers that
+vars == <<cli, i, errc, srv, meta, inq, ncer, closed, npeer, appOK, crashed>>
 
 Init == /\ cli = "start" /\ i = 0 /\ errc = "open" /\ srv = "idle" /\ meta = FALSE /\ inq = <<>>
-        /\ ncer = 0 /\ closed = FALSE /\ npeer = 0 /\ appOK = FALSE
+        /\ ncer = 0 /\ closed = FALSE /\ npeer = 0 /\ appOK = FALSE /\ crashed = FALSE
 
 WriteCER == /\ cli = "start" /\ i <= MaxRetx /\ ~closed
             /\ ncer' = ncer + 1 /\ cli' = "written"
-            /\ UNCHANGED <<i, errc, srv, meta, inq, closed, npeer, appOK>>
+            /\ UNCHANGED <<i, errc, srv, meta, inq, closed, npeer, appOK, crashed>>
 EnterSelect == /\ cli = "written" /\ cli' = "sent"
-               /\ UNCHANGED <<i, errc, srv, meta, inq, ncer, closed, npeer, appOK>>
+               /\ UNCHANGED <<i, errc, srv, meta, inq, ncer, closed, npeer, appOK, crashed>>
 \* a write on a transport that has meanwhile been closed fails: handshake returns the error
 SendFails == /\ cli = "start" /\ i <= MaxRetx /\ closed
-             /\ cli' = "done_err" /\ UNCHANGED <<i, errc, srv, meta, inq, ncer, closed, npeer, appOK>>
+             /\ cli' = "done_err" /\ UNCHANGED <<i, errc, srv, meta, inq, ncer, closed, npeer, appOK, crashed>>
 RecvClosed == /\ cli = "sent" /\ errc = "closed" /\ cli' = "done_ok"
-              /\ UNCHANGED <<i, errc, srv, meta, inq, ncer, closed, npeer, appOK>>
+              /\ UNCHANGED <<i, errc, srv, meta, inq, ncer, closed, npeer, appOK, crashed>>
+\* the failing CEA's error is received (the sender, handleCEA, is released and the serve goroutine goes on
+\* with whatever is already buffered) ...
 RecvErr == /\ cli = "sent" /\ srv = "sendErr" /\ errc = "open"
-           /\ cli' = "done_err" /\ errc' = "closed" /\ closed' = TRUE /\ srv' = "idle"
-           /\ UNCHANGED <<i, meta, inq, ncer, npeer, appOK>>
+           /\ cli' = "failing" /\ srv' = "idle"
+           /\ UNCHANGED <<i, errc, meta, inq, ncer, closed, npeer, appOK, crashed>>
+\* ... and only then does the dialling goroutine close errc and the transport.  If a success CEA that was
+\* pipelined behind the failing one has been handled in between, errc is closed already: unless the close
+\* is guarded (OnceClose, the repaired code) the dialling goroutine panics, which nothing recovers.
+CloseErrc == /\ cli = "failing"
+             /\ cli' = "done_err" /\ closed' = TRUE
+             /\ IF errc = "closed" THEN crashed' = ~OnceClose /\ UNCHANGED errc
+                ELSE errc' = "closed" /\ UNCHANGED crashed
+             /\ UNCHANGED <<i, srv, meta, inq, ncer, npeer, appOK>>
 Timer == /\ cli = "sent" /\ i' = i + 1
          /\ IF i + 1 > MaxRetx THEN cli' = "done_err" /\ closed' = TRUE ELSE cli' = "start" /\ UNCHANGED closed
-         /\ UNCHANGED <<errc, srv, meta, inq, ncer, npeer, appOK>>
+         /\ UNCHANGED <<errc, srv, meta, inq, ncer, npeer, appOK, crashed>>
 Peer(k) == /\ ncer > 0 /\ npeer < MaxPeerMsgs /\ ~closed
            /\ inq' = Append(inq, k) /\ npeer' = npeer + 1
-           /\ UNCHANGED <<cli, i, errc, srv, meta, ncer, closed, appOK>>
+           /\ UNCHANGED <<cli, i, errc, srv, meta, ncer, closed, appOK, crashed>>
 HandleCEA ==
   /\ srv = "idle" /\ inq # <<>> /\ ~closed
   /\ inq' = Tail(inq)
   /\ IF IgnoreAfterDone /\ meta THEN UNCHANGED <<errc, srv, meta, closed>>                      \* late / duplicate CEA: ignored
      ELSE IF Head(inq) = "fail" THEN srv' = "sendErr" /\ UNCHANGED <<errc, meta, closed>>         \* errc <- err (blocks)
-     ELSE IF errc = "closed" THEN srv' = "panicked" /\ closed' = TRUE /\ UNCHANGED <<errc, meta>> \* close of closed channel
+     ELSE IF errc = "closed" /\ ~OnceClose THEN srv' = "panicked" /\ closed' = TRUE /\ UNCHANGED <<errc, meta>> \* close of closed channel
      ELSE errc' = "closed" /\ meta' = TRUE /\ UNCHANGED <<srv, closed>>
-  /\ UNCHANGED <<cli, i, ncer, npeer, appOK>>
+  /\ UNCHANGED <<cli, i, ncer, npeer, appOK, crashed>>
 SendOnClosed == /\ srv = "sendErr" /\ errc = "closed" /\ srv' = "panicked" /\ closed' = TRUE
-                /\ UNCHANGED <<cli, i, errc, meta, inq, ncer, npeer, appOK>>
+                /\ UNCHANGED <<cli, i, errc, meta, inq, ncer, npeer, appOK, crashed>>
 \* the peer disconnects instead of answering (before any CEA was accepted): the serve goroutine reads EOF and closes the transport; the dialling
 \* goroutine notices at its next transmission (SendFails) or runs into its timers
 PeerEOF == /\ ncer > 0 /\ ~closed /\ srv = "idle" /\ inq = <<>> /\ errc = "open" /\ ~meta /\ cli \notin {"done_ok", "done_err"}
            /\ closed' = TRUE
-           /\ UNCHANGED <<cli, i, errc, srv, meta, inq, ncer, npeer, appOK>>
+           /\ UNCHANGED <<cli, i, errc, srv, meta, inq, ncer, npeer, appOK, crashed>>
 AppAnswer == /\ cli = "done_ok" /\ srv = "idle" /\ inq = <<>> /\ ~closed /\ appOK' = TRUE
-             /\ UNCHANGED <<cli, i, errc, srv, meta, inq, ncer, closed, npeer>>
-Next == WriteCER \/ EnterSelect \/ SendFails \/ RecvClosed \/ RecvErr \/ Timer \/ (\E k \in {"ok", "fail"} : Peer(k)) \/ HandleCEA \/ SendOnClosed \/ AppAnswer \/ PeerEOF
+             /\ UNCHANGED <<cli, i, errc, srv, meta, inq, ncer, closed, npeer, crashed>>
+Next == WriteCER \/ EnterSelect \/ SendFails \/ RecvClosed \/ RecvErr \/ CloseErrc \/ Timer \/ (\E k \in {"ok", "fail"} : Peer(k)) \/ HandleCEA \/ SendOnClosed \/ AppAnswer \/ PeerEOF
 Spec == Init /\ [][Next]_vars
 
 \* HandshakeObs at design level
+NoCrash       == ~crashed
 Bounded       == ncer <= MaxRetx + 1
 FailClosed    == cli = "done_err" => closed
 OkOnlyAfterOk == cli = "done_ok" => meta
